@@ -18,6 +18,12 @@ class EngineProp(PropBase):
         'time.sleep and random.uniform are replaced by recorders in the harness process (virtual clock); '
         'float rounding is not modelled (generated durations are small dyadic rationals, compared exactly)',
         'formatting inside decorators goes through Model/Format.v (see C08 trusted base)',
+        'Tie B: tools/py2coq_ctl.py (translation scheme for try/except/else/finally, bare raise, for; '
+        'signature tables; logging/assert/docstrings dropped) regenerates Gen/Control.v from '
+        'pypyr/stepsrunner.py, pypyr/dsl.py (Step.invoke_step, run_conditional_decorators, '
+        'run_foreach_or_conditional) and pypyr/errors.py on every run; Proofs/CtlProofs.v proves the '
+        'generated functions equal to the model; class_of in Model/Ctl.v fixes which Python class an '
+        'outcome stands for',
     ]
 
     def generate(self, rng, n, tier):
